@@ -7,8 +7,10 @@ PROPS["C03"] = dict(
     dict(name="c03-props", entries=["harness_c03"], **_c03_common,
          shards={"quick": op_shards([B_TET], [0, 1, 2, 3], _DELS, per=4) + op_shards([B_TET], [1], [OP_SWAP_V, OP_SWAP_F, OP_SWAP_C, OP_ADD_V, OP_ADD_NV], per=4)
                         + op_shards([B_TET], [1], [OP_SWAP_E, OP_ADD_E, OP_ADD_E_DUP], per=4)[:9]
-                        + [s for op1 in (OP_DEL_E, OP_DEL_V) for s in _with(op_shards([B_TET], [1, 3], [OP_GC], per=4), {4: op1, 5: 1})],
-                 "thorough": op_shards([B_TET2_FACE, B_LOWDIM], [0, 1, 3], _DELS, per=4) + op_shards([B_TET2_FACE, B_LOWDIM], [1], _SWAPS, per=4) + op_shards([B_TET], [1], [OP_SWAP_E, OP_ADD_E, OP_ADD_E_DUP], per=4)
+                        + [s for op1 in (OP_DEL_E, OP_DEL_V) for s in _with(op_shards([B_TET], [1, 3], [OP_GC], per=4), {4: op1, 5: 1})]
+                        + _with(op_shards([B_TET], [1], [OP_SWAP_F], per=4), {7: 12}) + _with(op_shards([B_TET], [1], [OP_SWAP_E], per=4)[:3], {7: 10}) + _with(op_shards([B_TET], [1], [OP_SWAP_V], per=4)[:2], {7: 9})
+                        + _with(op_shards([B_TET], [3], [OP_DEL_F, OP_DEL_E], per=4), {7: 15}),
+                 "thorough": [d for sub in (15, 7, 9, 10, 12) for d in _with(op_shards([B_TET], [1], _SWAPS, per=4) + op_shards([B_TET], [0, 3], _DELS, per=4), {7: sub})] + op_shards([B_TET2_FACE, B_LOWDIM], [0, 1, 3], _DELS, per=4) + op_shards([B_TET2_FACE, B_LOWDIM], [1], _SWAPS, per=4) + op_shards([B_TET], [1], [OP_SWAP_E, OP_ADD_E, OP_ADD_E_DUP], per=4)
                         + [s for op1 in _DELS for idx in (0, 2, 3) for s in _with(op_shards([B_TET, B_TET2_FACE], [1, 3], [OP_GC], per=4), {4: op1, 5: idx})]
                         + [s for op1 in _DELS for s in _with(op_shards([B_TET], [0, 3], _DELS, per=4), {4: op1, 5: 0})]},
          bounds="int properties on vertices, edges, halfedges, faces, halffaces, cells and the mesh, bool (vector<bool>) properties on vertices and halffaces, one int edge property created in the middle of the history; "
